@@ -977,6 +977,8 @@ def work_gen(args):
     lines = run_model(model, ["P " + sx(p)])
     base = lines[0].split()
     raw = ["M - -1 %s %s %s %s" % (base[1], base[2], base[3], sx(p))] + [l for l in lines[1:] if l.startswith("M ")]
+    g.stats["base:quirk_free"] = int(base[4])
+    g.stats["base:shadow_free"] = int(base[5])
     return idx, mod, mdir, raw, g.stats
 
 
@@ -1251,10 +1253,11 @@ def main():
             mismatch.append(it)
         elif not it["acc"] and it["check"] != "-":
             d0 = it["check"].split(",")[0]
+            d1 = it["patched"].split(",")[0]
             t = first_diag_tab.setdefault(d0, {})
             t[it["code"]] = t.get(it["code"], 0) + 1
             if it["code"] not in EXPECT.get(d0, set()):
-                first_diag_bad.append((d0, it["code"], it["src"]))
+                first_diag_bad.append((d0, it["code"], it["src"], it["code"] in EXPECT.get(d1, set())))
         if not it["acc"]:
             codes[it["code"]] = codes.get(it["code"], 0) + 1
             if it["line"] > 2 and kind == "mutant":
@@ -1283,8 +1286,11 @@ def main():
                                      ("accepts" if it["check"] == "-" else "rejects with " + it["check"], "accepts" if it["acc"] else "rejects with code %s" % it["code"],
                                       it["kind"], it["fault"], it["site"]),
                                      json.dumps(dict(source=it["src"], module=it["modtext"], prog=sx(it["ast"]) if it["ast"] else None), ensure_ascii=False))
+    if variant != "1111":
+        # a patched frontend reports the first diagnostic of the patched model where the two models differ
+        first_diag_bad = [x for x in first_diag_bad if not x[3]]
     if first_diag_bad and not ck.violations and not mismatch:
-        d0, code, src = first_diag_bad[0]
+        d0, code, src, _ = first_diag_bad[0]
         ck.broken_obligation("first diagnostic differs in kind: model %s, frontend code %s (%d cases)" % (d0, code, len(first_diag_bad)), src)
 
     # ---- 4. kddp on a sample: exit status and artefact -----------------------------------------
